@@ -56,7 +56,7 @@ def run(chk, repo):
             jn_names = None
             for st in ast.walk(nf):
                 if isinstance(st, ast.Assign) and isinstance(st.targets[0], ast.Tuple) and all(isinstance(e, ast.Name) for e in st.targets[0].elts):
-                    v = sem.expand_names(nf, st, st.value, chains=chains)
+                    v = sem.expand_names(nf, st, st.value, chains=chains, allow_calls=('align_to_transcript', 'create_splice_junctions'))
                     if isinstance(v, ast.Call) and call_name(v) == 'create_splice_junctions':
                         jn_names = [e.id for e in st.targets[0].elts]
                 elif isinstance(st, ast.Assign) and isinstance(st.targets[0], ast.Name) and call_name(st.value) == 'create_splice_junctions' and jn_names is None:
@@ -68,7 +68,7 @@ def run(chk, repo):
             emits = sem.facts_where(nf, lambda st: sem.own_stmt(st) and bool(sem.calls_in_stmt(st, 'convert_to_variant_records')))
             for st, fx in emits:
                 c = sem.calls_in_stmt(st, 'convert_to_variant_records')[0]
-                aln = sem.expand_names(nf, st, c.func.value, chains=chains)
+                aln = sem.expand_names(nf, st, c.func.value, chains=chains, allow_calls=('align_to_transcript', 'create_splice_junctions'))
                 jn = unparse(aln.func.value) if isinstance(aln, ast.Call) and call_name(aln) == 'align_to_transcript' else None
                 x = form_of.get(jn)
                 if x is None:
@@ -97,7 +97,7 @@ def run(chk, repo):
                         g_ = c.args[0]
                         v_ = g_.generators[0].target
                         if isinstance(v_, ast.Name) and unparse(g_.elt) == f"{v_.id}.is_novel(anno)" and not g_.generators[0].ifs:
-                            src = sem.expand_names(nf, tl[0], g_.generators[0].iter, chains=chains)
+                            src = sem.expand_names(nf, tl[0], g_.generators[0].iter, chains=chains, allow_calls=('align_to_transcript', 'create_splice_junctions'))
                             t_ = unparse(src)
                             if t_ == 'self.create_splice_junctions()' or [x.strip() for x in t_.strip('()[]').split(',')] == jn_names:
                                 return True
